@@ -18,6 +18,7 @@ META = {
     "not_decided": "that the produced partition equals the specification for every input (group order, contents)",
     "assumptions": [],
 }
+META["explanation"] += " " + '(SB-eqlen, shared with C15) the key comparison GroupBy relies on is a length-checked equality, not a prefix test.'
 META["explanation"] += " " + "FLOW-key is decided by taint flow: a value carrying the group's name (the key parameters or locals computed from them alone) must be compared or looked up against something that varies per element inside the element loop. (HC-confirm, shared with C13) a match by stored hash is confirmed by comparing the key."
 
 
@@ -207,4 +208,6 @@ def run(ctx):
     rules.append(r)
     from rules.C13 import rule_hash_confirm
     rules.append(rule_hash_confirm(ctx, m))
+    from rules.common import rule_equal_lengths
+    rules.append(rule_equal_lengths(ctx, m))
     return rules
